@@ -635,7 +635,7 @@ func (v Int256Value) BitwiseLeftShift(context ValueStaticTypeContext, other Inte
 		res = toTwosComplement(res, v.BigInt, 256)
 		res = res.Lsh(res, uint(o.BigInt.Uint64()))
 		res = truncate(res, 256/bits.UintSize)
-		return fromTwosComplement(res)
+		return fromTwosComplement(res, 256)
 	}
 
 	return NewInt256ValueFromBigInt(context, valueGetter)
